@@ -55,4 +55,39 @@ PROPS = {
                 trusted=TRUSTED,
                 explanation="[E] P2; [B] P3 at program level on a fixed corpus",
                 witnesses=["c17_open_without_unit", "c17_procedure_stmt_text_differs"]),
+    "C10": dict(level="other",
+                claim="node construction and navigation contracts: Base.__new__ statement branch stores the consumed item on the node, the parse cache "
+                      "returns the identical object per (item, class), get_root returns an ancestor without parent, BlockBase.match accounts for every "
+                      "consumed item in content order",
+                trusted=TRUSTED,
+                explanation="[P] U3b, R20, U5 get_root, U8f; _set_parent / walk not yet under contract (bounded tree catalogue in C18)"),
+    "C11": dict(level="other",
+                claim="comment handling contracts: Comment.__new__ consumes exactly one comment item or restores the reader, Comment/Directive.init keep "
+                      "the comment text and item, BlockBase.match restores every consumed item on failure and keeps content in item order",
+                trusted=TRUSTED,
+                explanation="[P] F4, U8b/f; reader-side comment creation (handle_inline_comment, continuation loop) bounded / not yet under contract"),
+    "C12": dict(level="other",
+                claim="put-back half proved: physical-line stack (put/get_single_line, get_next_line keep the count invariant), item queue (put_item "
+                      "prepends to the innermost reader), rule calls that report no match leave the item stream unchanged (Base.__new__, Comment, "
+                      "BlockBase.match); cpp-directive items carry the exact span of the lines taken",
+                trusted=TRUSTED,
+                explanation="[P] R7, R9a, U3b, U8b, R14 integers; delivery half of free/fixed statements not yet under contract",
+                witnesses=["c14_directive_backslash_at_eof"]),
+    "C14": dict(level="other",
+                claim="a '#' line is recognised exactly when its first non-blank character is '#' (not pyf); the reader's directive branch returns "
+                      "one CppDirective item whose span is the physical lines taken, without exception at end of input",
+                trusted=TRUSTED,
+                explanation="[P] R13, R14; Cpp_* round trip and match_cpp_directive not yet under contract",
+                witnesses=["c14_directive_backslash_at_eof"]),
+    "C18": dict(level="other",
+                claim="deep-copy protocol: Base.__getnewargs__ returns (string, None, True) and every class with its own __new__ (Base, Comment, "
+                      "Directive; Program delegates) returns a fresh uninitialised instance for those arguments without touching a reader",
+                trusted=TRUSTED + "; CPython copy/pickle protocol (reconstruction through __new__(*__getnewargs__()) then __dict__ copy)",
+                explanation="[P] U3a, U4, F4 deep-copy exits and the HAS_STRING invariant of Comment/Directive.init",
+                witnesses=["c18_deepcopy_with_comment"]),
+    "C20": dict(level="other",
+                claim="mechanisms that keep parsing effort polynomial: the per-item parse cache evaluates a string rule at most once per (item, class) "
+                      "(ghost evaluation counter), the labelled-DO early abort restores the reader and returns at once",
+                trusted=TRUSTED,
+                explanation="[P] R20 with ghost counter, U8g as part of U8b; global bound not decided"),
 }
